@@ -3,7 +3,8 @@
 
   Model: Lumina/Model/Commit.lean (`verifyCommitLight`, `verifyCommitLightTrusting`,
   `votingPowerNeeded`), run against the real `ValidatorSetExt` by the correspondence check.
-  Spec:  Lumina/Spec/C03.lean (`specLightSound`, `specLightExact`, `specTrustingSound`).
+  Spec:  Lumina/Spec/C03.lean (`specLightSound`, `specLightExact`, `specTrustingSound`,
+  `specTrustingExact`).
 
   All theorems hold for EVERY validator set (any size, any powers, duplicated validators
   allowed), EVERY commit (any length, flags, addresses) and EVERY signature oracle
@@ -198,6 +199,109 @@ theorem trusting_no_panic (ok : Nat → Nat → Bool) (n d : Nat) (vs : ValSet) 
       omega
     · exact Nat.zero_le _
 
+/-- **When every block-commit entry carries a signature, the entries of trusted validators carry
+    VALID signatures of those validators and no trusted validator is duplicated among the entries,
+    trusting verification accepts exactly when the DISTINCT trusted signers' power exceeds one
+    third of the trusted set's total** (and the verdict is then `NotEnoughVotingPower` or `Ok`,
+    never a panic).  The early exit is covered: the loop may stop before reading the whole commit,
+    the verdict is still the comparison of the WHOLE commit's trusted signing power with the
+    threshold.  There is no height hypothesis: `verify_commit_light_trusting` takes no height.
+    Duplicates are NOT ignored by the code: see `trusting_double_vote`. -/
+theorem trusting_exact (ok : Nat → Nat → Bool) (vs : ValSet) (sigs : List CSig) (hwf : vs.wf = true) :
+    specTrustingExact (specInput vs 0 0 sigs) ok (decide (trusting ok vs sigs = .ok)) = true := by
+  unfold specTrustingExact
+  by_cases hw : wellFormedTrusting (specInput vs 0 0 sigs) ok = true
+  · simp only [hw, Bool.not_true, Bool.false_or, beq_iff_eq]
+    simp only [wellFormedTrusting, Bool.and_eq_true, List.all_eq_true, List.mem_range] at hw
+    obtain ⟨hall, hnd⟩ := hw
+    simp only [ValSet.wf, Bool.and_eq_true, beq_iff_eq, decide_eq_true_eq] at hwf
+    obtain ⟨hT, hmax⟩ := hwf
+    have hnd' : (owners vs.vals sigs).Nodup := owners_nodup vs.vals sigs hnd
+    have hav : allValidT ok vs.vals 0 sigs = true := by
+      apply allValidT_of ok vs 0 0 sigs 0 sigs
+      intro j hj
+      have := hall j (by simpa [specInput] using hj)
+      simpa [specInput, entry] using this
+    have hle := ownerPow_le_sum vs.vals sigs hnd'
+    have hb : 0 + ownerPow vs.vals sigs < U64_LIMIT := by
+      simp only [MAX_TOTAL_VOTING_POWER] at hmax
+      simp only [U64_LIMIT]
+      omega
+    have hno : ¬ (DEFAULT_TRUST_NUM * vs.total ≥ U64_LIMIT) := by
+      simp only [MAX_TOTAL_VOTING_POWER] at hmax
+      simp only [DEFAULT_TRUST_NUM, U64_LIMIT]
+      omega
+    have hex := trustLoop_prefix ok (DEFAULT_TRUST_NUM * vs.total / DEFAULT_TRUST_DEN) vs.vals [] sigs 0 [] 0
+      hav hnd' (fun _ _ => by simp) hb (Nat.zero_le _)
+    have htr : trusting ok vs sigs =
+        if DEFAULT_TRUST_NUM * vs.total / DEFAULT_TRUST_DEN < ownerPow vs.vals sigs then .ok
+        else .err (.notEnough (ownerPow vs.vals sigs) (DEFAULT_TRUST_NUM * vs.total / DEFAULT_TRUST_DEN)) := by
+      unfold trusting verifyCommitLightTrusting votingPowerNeeded
+      rw [if_neg hno, if_neg (by decide)]
+      simpa [trustLoop] using hex
+    rw [htr, trustedSigningPower_eq vs 0 0 sigs hnd', total_eq, ← hT]
+    have hiff := needed_strict (ownerPow vs.vals sigs) DEFAULT_TRUST_NUM vs.total DEFAULT_TRUST_DEN (by decide)
+    simp only [DEFAULT_TRUST_NUM, DEFAULT_TRUST_DEN, Nat.one_mul] at hiff ⊢
+    by_cases hlt : vs.total / 3 < ownerPow vs.vals sigs
+    · simp [hlt, hiff.mp hlt]
+    · have : ¬ (vs.total < 3 * ownerPow vs.vals sigs) := fun hc => hlt (hiff.mpr hc)
+      simp [hlt, this]
+  · simp [hw]
+
+/-- **A duplicated trusted validator is an ERROR, not a skipped entry.**  Let the commit be
+    `pre ++ d :: rest` where `pre` satisfies the hypothesis of `trusting_exact` and `d` is a
+    block-commit entry (carrying a signature, valid or not) whose address is that of a trusted
+    validator who already has a block-commit entry in `pre`.  Then, whatever follows, the
+    verdict is `Ok` if the distinct trusted signers of `pre` alone already exceed one third (the
+    early exit happens before `d` is read), and the "Double vote" error otherwise — never
+    `NotEnoughVotingPower`, and `rest` is never counted. -/
+theorem trusting_double_vote (ok : Nat → Nat → Bool) (vs : ValSet) (pre rest : List CSig) (d : CSig)
+    (hwf : vs.wf = true) (hpre : wellFormedTrusting (specInput vs 0 0 pre) ok = true)
+    (hd : d.flag = .commit) (hsig : d.hasSig = true)
+    (hdup : ∃ s ∈ pre, s.flag = .commit ∧ s.addr = d.addr) (htr : d.addr ∈ vs.vals.map (·.addr)) :
+    trusting ok vs (pre ++ d :: rest) =
+      if 3 * trustedSigningPower (specInput vs 0 0 pre) > 1 * total (specInput vs 0 0 pre) then .ok
+      else .err .doubleVote := by
+  simp only [wellFormedTrusting, Bool.and_eq_true, List.all_eq_true, List.mem_range] at hpre
+  obtain ⟨hall, hnd⟩ := hpre
+  simp only [ValSet.wf, Bool.and_eq_true, beq_iff_eq, decide_eq_true_eq] at hwf
+  obtain ⟨hT, hmax⟩ := hwf
+  have hnd' : (owners vs.vals pre).Nodup := owners_nodup vs.vals pre hnd
+  have hav : allValidT ok vs.vals 0 pre = true := by
+    apply allValidT_of ok vs 0 0 pre 0 pre
+    intro j hj
+    have := hall j (by simpa [specInput] using hj)
+    simpa [specInput, entry] using this
+  have hle := ownerPow_le_sum vs.vals pre hnd'
+  have hb : 0 + ownerPow vs.vals pre < U64_LIMIT := by
+    simp only [MAX_TOTAL_VOTING_POWER] at hmax
+    simp only [U64_LIMIT]
+    omega
+  have hno : ¬ (DEFAULT_TRUST_NUM * vs.total ≥ U64_LIMIT) := by
+    simp only [MAX_TOTAL_VOTING_POWER] at hmax
+    simp only [DEFAULT_TRUST_NUM, U64_LIMIT]
+    omega
+  obtain ⟨vi, v, hf⟩ := findValidatorFrom_isSome d.addr vs.vals 0 htr
+  have hmem : vi ∈ owners vs.vals pre := by
+    obtain ⟨s, hs, hc, ha⟩ := hdup
+    exact (mem_owners vs.vals vi pre).mpr ⟨s, hs, hc, v, by rw [ha]; exact hf⟩
+  have hex := trustLoop_prefix ok (DEFAULT_TRUST_NUM * vs.total / DEFAULT_TRUST_DEN) vs.vals (d :: rest) pre 0 [] 0
+    hav hnd' (fun _ _ => by simp) hb (Nat.zero_le _)
+  rw [trustLoop_double ok _ vs.vals _ _ _ d rest vi v hd hsig hf (by simpa using hmem)] at hex
+  have htr' : trusting ok vs (pre ++ d :: rest) =
+      if DEFAULT_TRUST_NUM * vs.total / DEFAULT_TRUST_DEN < ownerPow vs.vals pre then .ok
+      else .err .doubleVote := by
+    unfold trusting verifyCommitLightTrusting votingPowerNeeded
+    rw [if_neg hno, if_neg (by decide)]
+    simpa using hex
+  rw [htr', trustedSigningPower_eq vs 0 0 pre hnd', total_eq, ← hT]
+  have hiff := needed_strict (ownerPow vs.vals pre) DEFAULT_TRUST_NUM vs.total DEFAULT_TRUST_DEN (by decide)
+  simp only [DEFAULT_TRUST_NUM, DEFAULT_TRUST_DEN, Nat.one_mul] at hiff ⊢
+  by_cases hlt : vs.total / 3 < ownerPow vs.vals pre
+  · simp [hlt, hiff.mp hlt]
+  · have : ¬ (vs.total < 3 * ownerPow vs.vals pre) := fun hc => hlt (hiff.mpr hc)
+    simp [hlt, this]
+
 /-! ### non-vacuity -/
 
 def v (a : UInt8) (p : Nat) : Validator := { addr := [a], power := p }
@@ -213,5 +317,16 @@ example : wellFormedLight (specInput exSet 5 5 [c 1, c 2, c 3]) (fun _ _ => true
 example : trusting (fun _ _ => true) exSet [c 2] = .err (.notEnough 1 1) := by decide
 example : trusting (fun _ _ => true) exSet [c 9, c 2, c 3] = .ok := by decide
 example : trusting (fun _ _ => true) exSet [c 2, c 2] = .err .doubleVote := by decide
+-- `trusting_exact`: its hypothesis holds for a commit with an unknown signer, an absent entry and two
+-- distinct trusted signers (accepted: 2/3 > 1/3) and for one trusted signer (rejected: exactly 1/3)
+example : wellFormedTrusting (specInput exSet 0 0 [c 9, ⟨.absent, [], false⟩, c 2, c 3]) (fun _ _ => true) = true := by decide
+example : trustedSigningPower (specInput exSet 0 0 [c 9, ⟨.absent, [], false⟩, c 2, c 3]) = 2 := by decide
+example : wellFormedTrusting (specInput exSet 0 0 [c 2]) (fun _ _ => true) = true := by decide
+-- a duplicated trusted validator falsifies the hypothesis (and the code answers "Double vote")
+example : wellFormedTrusting (specInput exSet 0 0 [c 2, c 2]) (fun _ _ => true) = false := by decide
+-- `trusting_double_vote`: early exit before the duplicate → accepted; otherwise the double-vote error
+def exSet5 : ValSet := { vals := [v 1 1, v 2 1, v 3 1, v 4 1, v 5 1], total := 5 }
+example : trusting (fun _ _ => true) exSet5 ([c 2, c 3] ++ c 2 :: [c 4]) = .ok := by decide
+example : trusting (fun _ _ => true) exSet5 ([c 2] ++ c 2 :: [c 3, c 4]) = .err .doubleVote := by decide
 
 end Lumina.Props.C03
